@@ -26,6 +26,14 @@ impl HTOffsets {
     pub fn meta_bytes_index(&self, ix: u64) -> u64 {
         ix
     }
+
+    /// Verification hook: the offsets `open` computes for a table of `num_pages` buckets.
+    #[cfg(nomt_verif)]
+    pub fn verif_new(num_pages: u32) -> Self {
+        HTOffsets {
+            data_page_offset: num_meta_byte_pages(num_pages) as u64,
+        }
+    }
 }
 
 fn expected_file_len(num_pages: u32) -> u64 {
